@@ -20,7 +20,7 @@ CORPUS = [
 JOKE = "eyecite"
 
 
-def run(ctx, monitors, n_docs, n_ra=0.3):
+def run(ctx, monitors, n_docs, n_ra=0.3, n_boundary=0):
     """monitors: list of (name, fn(text, run, run_ra_or_None) -> (shape, message) or None)"""
     rng = ctx.rng
     docs = list(CORPUS) + [JOKE]
@@ -30,6 +30,8 @@ def run(ctx, monitors, n_docs, n_ra=0.3):
         if rng.random() < 0.15:
             d = textgen.mutate(rng, d)
         docs.append(d)
+    for _ in range(n_boundary):
+        docs.append(textgen.boundary_year_doc(rng))
     cases = []
     for d in docs:
         run = P.run_document(d, False)
